@@ -12,7 +12,9 @@ import (
 	"encoding/hex"
 	"encoding/json"
 	"fmt"
+	"math"
 	"sort"
+	"strconv"
 	"strings"
 
 	"pgregory.net/rapid"
@@ -159,6 +161,12 @@ func c36StrTags(s string) []string {
 	}
 	if s == "" {
 		t = append(t, "str_empty")
+	}
+	if strings.Contains(s, "\r") {
+		t = append(t, "str_cr")
+	}
+	if len(s) > 2000 {
+		t = append(t, "str_long")
 	}
 	for _, r := range s {
 		if r > 0xffff {
@@ -379,6 +387,11 @@ func c36FloatType(double bool) *c36Type {
 		if !double && strings.HasSuffix(s, "3.4028234e38") {
 			tags = append(tags, "float32_max")
 		}
+		if f, err := strconv.ParseFloat(strings.TrimSuffix(s, "*0"), 64); err == nil {
+			if a := math.Abs(f); a != 0 && (a < 1e-6 || a >= 1e21) {
+				tags = append(tags, "float_exponent") // written with an exponent by encoding/json
+			}
+		}
 		return c36Val{lit: s, tags: tags}
 	}
 	// the sign of a zero is only visible through ATAN2(x,-1) (pi for +0, -pi for -0)
@@ -553,6 +566,12 @@ func c36EnumType(rt *rapid.T, label string) *c36Type {
 		var tags []string
 		if strings.ContainsAny(ms[i], "'\"") {
 			tags = append(tags, "enum_quote")
+		}
+		if ms[i] == "" {
+			tags = append(tags, "str_empty")
+		}
+		if strings.Contains(ms[i], "\r") {
+			tags = append(tags, "str_cr")
 		}
 		return c36Val{lit: c36QuoteStr(ms[i]), key: fmt.Sprintf("e:%d", i), tags: tags}
 	}
@@ -745,6 +764,12 @@ func c36JSONType() *c36Type {
 		if doc == "null" {
 			tags = append(tags, "json_null_literal")
 		}
+		if !strings.HasPrefix(doc, "{") && !strings.HasPrefix(doc, "[") {
+			tags = append(tags, "json_scalar_top")
+		}
+		if strings.Contains(doc, "1e100") || strings.Contains(doc, "1E-7") || strings.Contains(doc, "123456789012345678901234567890") {
+			tags = append(tags, "json_exponent_number")
+		}
 		return c36Val{lit: c36QuoteStr(doc), tags: tags}
 	}
 	t.obs = func(q string) []string {
@@ -917,6 +942,8 @@ type c36Gate struct {
 	noViewComment  bool // C36-view-trailing-comment: no view body ending in a "-- comment"
 	noEarlyYear    bool // C36-date-year-below-1000: no DATE/DATETIME value with a year in 0001..0999
 	noFloatMax     bool // C36-float-max: no FLOAT value ±3.4028234e38 (the largest float32)
+	format         string // "" = SQL dump; csv | json | parquet: restrict to what the file format carries (c36FormatTypeOK / c36FormatValueOK)
+	restricted     int    // draws replaced because of a format restriction
 	excluded       int
 }
 
@@ -967,6 +994,11 @@ func c36GenTable(rt *rapid.T, label, name string, db *c36DB, g *c36Gate) c36Tabl
 		ncols = 2
 	}
 	cnames := c36Perm(rt, label+".cnames", c36ColNames, ncols)
+	if g.format != "" {
+		for i := range cnames {
+			cnames[i] = strings.ReplaceAll(cnames[i], ".", "_")
+		}
+	}
 	if mode <= 2 {
 		t.autoPK = true
 		it := c36IntType(c36IntSpecs[[]int{6, 8, 9, 2}[rapid.IntRange(0, 3).Draw(rt, label+".pktype")]])
@@ -985,12 +1017,30 @@ func c36GenTable(rt *rapid.T, label, name string, db *c36DB, g *c36Gate) c36Tabl
 		default:
 			typ = c36DrawType(rt, cl)
 		}
+		for tries := 0; g.format != "" && !c36FormatTypeOK(g.format, typ); tries++ {
+			g.restricted++
+			if tries > 20 {
+				typ = c36IntType(c36IntSpecs[6])
+				break
+			}
+			if anchor && ci == 0 {
+				typ = c36DrawTypeIn(rt, fmt.Sprintf("%s.re%d", cl, tries), 0, 8)
+				if typ.hostile == nil {
+					typ = c36StrType("varchar", "varchar(40)", 40, c36StrPieces, true, 0)
+				}
+			} else {
+				typ = c36DrawType(rt, fmt.Sprintf("%s.re%d", cl, tries))
+			}
+		}
 		if typ.family == "bit" && g.noBit {
 			g.excluded++
 			typ = c36IntType(c36IntSpecs[9])
 		}
 		col := c36Col{name: cnames[ci], typ: typ}
 		col.notNull = rapid.IntRange(0, 3).Draw(rt, cl+".notnull") == 0
+		if g.format == "parquet" && typ.family == "decimal" {
+			col.notNull = true
+		}
 		if len(typ.defs) > 0 && rapid.IntRange(0, 3).Draw(rt, cl+".hasdef") == 0 {
 			if (typ.family == "enum" || typ.family == "set") && g.noEnumDefault {
 				g.excluded++
@@ -1008,7 +1058,7 @@ func c36GenTable(rt *rapid.T, label, name string, db *c36DB, g *c36Gate) c36Tabl
 	}
 	// a generated column over an int column
 	for ci, c := range t.cols {
-		if c.typ.family == "int" && c.name != "pk" && rapid.IntRange(0, 4).Draw(rt, fmt.Sprintf("%s.gen%d", label, ci)) == 0 {
+		if g.format == "" && c.typ.family == "int" && c.name != "pk" && rapid.IntRange(0, 4).Draw(rt, fmt.Sprintf("%s.gen%d", label, ci)) == 0 {
 			t.cols = append(t.cols, c36Col{name: "g_" + fmt.Sprint(ci), typ: c36IntType(c36IntSpecs[8]),
 				gen: "(" + c36QuoteIdent(c.name) + " % 7)", stored: rapid.Bool().Draw(rt, label+".stored")})
 			break
@@ -1174,15 +1224,31 @@ func c36GenRows(rt *rapid.T, label string, t *c36Table, g *c36Gate, anchor bool)
 			switch {
 			case anchor && ri == 0 && c.typ.hostile != nil:
 				row[ci] = c.typ.hostile(rt, vl)
+				for tries := 0; g.format != "" && !c36FormatValueOK(g.format, c.typ, row[ci]); tries++ {
+					g.restricted++
+					if tries > 8 {
+						row[ci] = c36FormatFallback(c.typ)
+						break
+					}
+					row[ci] = c.typ.hostile(rt, fmt.Sprintf("%s.re%d", vl, tries))
+				}
 			case anchor && ri == 1 && !nullDone && !c.notNull:
 				nullDone = true
 				row[ci] = c36Val{lit: "NULL", null: true, tags: []string{"null"}}
 			case k == 0 && !c.notNull:
 				row[ci] = c36Val{lit: "NULL", null: true, tags: []string{"null"}}
-			case k == 1 && c.def != "" && !isPK[ci] && !c36InUnique(t, ci):
+			case k == 1 && c.def != "" && !isPK[ci] && !c36InUnique(t, ci) && g.format == "":
 				row[ci] = c36Val{lit: "DEFAULT", tags: []string{"default_used"}}
 			default:
 				v := c.typ.gen(rt, vl)
+				for tries := 0; g.format != "" && !c36FormatValueOK(g.format, c.typ, v); tries++ {
+					g.restricted++
+					if tries > 8 {
+						v = c36FormatFallback(c.typ)
+						break
+					}
+					v = c.typ.gen(rt, fmt.Sprintf("%s.re%d", vl, tries))
+				}
 				if g.noGeoHostile && c36HasTag(v.tags, "geo_quote_bs_byte") {
 					g.excluded++
 					v = c36Val{lit: "ST_GeomFromText('POINT(1 2)')", tags: []string{"geo_value"}}
@@ -1582,4 +1648,123 @@ func (db *c36DB) summary() (string, map[string]bool) {
 	}
 	sort.Strings(parts)
 	return fmt.Sprintf("tables=%s views=%d triggers=%d", strings.Join(parts, " "), len(db.views), len(db.triggers)), classes
+}
+
+// ---------------------------------------------------------------------------------------------
+// file formats: what `dolt dump -r csv|json|parquet` + `dolt table import` can carry
+
+// c36FormatRestrictions is written into the evidence (rule/assumptions) of the formats part.
+var c36FormatRestrictions = map[string][]string{
+	"csv": {
+		"csv is untyped text: an empty field is the only spelling of both NULL and '' (known a priori) - no empty strings, no empty SET values, no '' ENUM members in csv cases",
+		"csv is not used for binary columns (known a priori): no binary/varbinary/blob columns, no spatial columns (written as raw bytes), no BIT",
+		"encoding/csv (Go) drops a carriage return that precedes a line feed inside a quoted field: no CR in strings",
+	},
+	"json": {
+		"JSON strings are Unicode text: no binary/varbinary/blob/bit/spatial columns (dolt writes invalid UTF-8 as U+FFFD, BLOB as base64 that the import does not decode)",
+		"JSON has one number type: FLOAT/DOUBLE values are restricted to those encoding/json writes without an exponent (1e-6 <= |x| < 1e21); the import (jstream) misreads exponents",
+		"a JSON column is embedded as a JSON value: SQL NULL and the JSON null literal, and a top-level JSON string and a text, are the same spelling - JSON columns hold objects/arrays without exponent numbers",
+		"character values longer than 2000 bytes are left out (dolt exports out-of-line text as its storage wrapper object)",
+	},
+	"parquet": {
+		"no BIT columns; DECIMAL columns are NOT NULL (dolt's parquet import panics on a NULL decimal)",
+		"column names contain no '.' (the parquet import drops such a column)",
+	},
+	"all": {
+		"no generated columns (file exports include the generated column and the import tries to write it)",
+		"row values only: the table schema comes from the generator's CREATE TABLE (dolt table import -r), so SHOW CREATE TABLE / AUTO_INCREMENT counters / views / triggers are not compared",
+		"rows written with the DEFAULT keyword are left out",
+	},
+}
+
+func c36FormatTypeOK(format string, t *c36Type) bool {
+	if t.family == "bit" {
+		return false
+	}
+	switch format {
+	case "csv":
+		if t.family == "enum" {
+			for _, m := range t.members {
+				if m == "" {
+					return false
+				}
+			}
+		}
+		return t.family != "bin" && t.family != "geo"
+	case "json":
+		return t.family != "bin" && t.family != "geo"
+	}
+	return true
+}
+
+func c36FormatValueOK(format string, t *c36Type, v c36Val) bool {
+	has := func(tag string) bool { return c36HasTag(v.tags, tag) }
+	switch format {
+	case "csv":
+		if has("str_empty") || has("set_empty") || has("str_cr") {
+			return false
+		}
+		if t.family == "json" && strings.Contains(v.lit, "\\r") {
+			return false
+		}
+	case "json":
+		if has("float_exponent") || has("float32_max") || has("str_long") || has("json_scalar_top") || has("json_exponent_number") || has("json_null_literal") {
+			return false
+		}
+	}
+	return true
+}
+
+func c36FormatFallback(t *c36Type) c36Val {
+	switch t.family {
+	case "str":
+		return c36Val{lit: "'x'", key: "s:x"}
+	case "set", "enum":
+		return c36Val{lit: c36QuoteStr(t.members[len(t.members)-1]), key: fmt.Sprintf("e:%d", len(t.members)-1)}
+	case "float":
+		return c36Val{lit: "1.5e0"}
+	case "json":
+		return c36Val{lit: "'{\"a\": [1, \"é\"]}'", tags: []string{"json_unicode"}}
+	}
+	return c36Val{lit: "NULL", null: true, tags: []string{"null"}}
+}
+
+// schemaScript: only the CREATE TABLE statements (the destination of a file import).
+func (db *c36DB) schemaScript() string {
+	var b strings.Builder
+	for i := range db.tables {
+		b.WriteString(db.tables[i].createSQL(db) + ";\n")
+	}
+	return b.String()
+}
+
+// rowsFingerprintScript observes only the rows of every table.
+func (db *c36DB) rowsFingerprintScript() (string, []string) {
+	var b strings.Builder
+	var sections []string
+	for i := range db.tables {
+		t := &db.tables[i]
+		sections = append(sections, "rows of "+t.name)
+		fmt.Fprintf(&b, "SELECT '%s' AS m;\n", c36Mark)
+		var exprs []string
+		for _, c := range t.cols {
+			q := c36QuoteIdent(c.name)
+			exprs = append(exprs, "("+q+" IS NULL)")
+			exprs = append(exprs, c.typ.obs(q)...)
+		}
+		fmt.Fprintf(&b, "SELECT %s FROM %s;\n", strings.Join(exprs, ", "), c36QuoteIdent(t.name))
+	}
+	return b.String(), sections
+}
+
+// c36GenFormatDB: 1-2 tables without views/triggers, restricted to what the format carries.
+func c36GenFormatDB(rt *rapid.T, g *c36Gate) *c36DB {
+	db := &c36DB{}
+	nt := rapid.IntRange(1, 2).Draw(rt, "ntables")
+	names := c36Perm(rt, "tnames", c36TableNames, nt)
+	for ti := 0; ti < nt; ti++ {
+		db.tables = append(db.tables, c36GenTable(rt, fmt.Sprintf("t%d", ti), names[ti], db, g))
+	}
+	db.commit = rapid.IntRange(0, 3).Draw(rt, "commit") == 0
+	return db
 }
